@@ -106,13 +106,17 @@ class FakeStreamSock:
         ready, data = self.inbox[0]
         if data is None:
             return b''          # EOF stays at the head
-        if len(data) <= n:
-            self.inbox.pop(0)
-            self.net.log.append(('rx', self.label, data))
-            return data
-        self.inbox[0][1] = data[n:]
-        self.net.log.append(('rx', self.label, data[:n]))
-        return data[:n]
+        # like TCP: everything that has arrived is handed over at once (up to n bytes)
+        s = schedx._sched
+        now = s.now if s else schedx.vtime()
+        self.inbox.pop(0)
+        while self.inbox and self.inbox[0][0] <= now and self.inbox[0][1] is not None:
+            data += self.inbox.pop(0)[1]
+        if len(data) > n:
+            self.inbox.insert(0, [ready, data[n:]])
+            data = data[:n]
+        self.net.log.append(('rx', self.label, data))
+        return data
 
     def shutdown(self, how):
         if self.closed:
@@ -191,12 +195,15 @@ socket_shim = schedx._Shim(_socket, create_connection=_create_connection)
 select_shim = schedx._Shim(_select, select=_select_fn)
 
 
-_done = [False]
+_scanned = set()
 
 
 def install(force=False):
-    """rebind socket / select inside the frappy modules that open stream connections (once per process)"""
-    if _done[0] and not force:
+    """rebind socket / select (and threading / time / queue) inside the frappy modules; re-scans when frappy modules
+    were imported since the last call"""
+    import sys
+    names = {m for m in sys.modules if m == 'frappy' or m.startswith('frappy.')}
+    if not force and names <= _scanned:
         return 0
-    _done[0] = True
+    _scanned.update(names)
     return schedx.install(extra={_socket: socket_shim, _select: select_shim})
